@@ -78,12 +78,19 @@ type F struct {
 	T     *T
 }
 
-func Leaf(k Kind) *T          { return &T{K: k} }
-func Ptr(e *T) *T             { return &T{K: KPtr, Elem: e} }
-func Slice(e *T) *T           { return &T{K: KSlice, Elem: e} }
-func Map(k, v *T) *T          { return &T{K: KMap, Key: k, Elem: v} }
-func Struct(fs ...F) *T       { return &T{K: KStruct, Fields: fs} }
-func Fld(i int, t *T) F       { return F{Name: fmt.Sprintf("F%d", i), Index: i, T: t} }
+func Leaf(k Kind) *T { return &T{K: k} }
+func Ptr(e *T) *T    { return &T{K: KPtr, Elem: e} }
+
+// Slice builds []e. In Go []uint8 and []byte are the same type, so that case is the KBytes leaf.
+func Slice(e *T) *T {
+	if e.K == KUint8 && e.Named == "" {
+		return Leaf(KBytes)
+	}
+	return &T{K: KSlice, Elem: e}
+}
+func Map(k, v *T) *T    { return &T{K: KMap, Key: k, Elem: v} }
+func Struct(fs ...F) *T { return &T{K: KStruct, Fields: fs} }
+func Fld(i int, t *T) F { return F{Name: fmt.Sprintf("F%d", i), Index: i, T: t} }
 func FldO(i int, o string, t *T) F {
 	return F{Name: fmt.Sprintf("F%d", i), Index: i, Opt: o, T: t}
 }
